@@ -69,6 +69,9 @@ def run_case(case):
         payload = R.build_roland(c02.norm_model(case["model"]))[0]
     if case.get("drop_sectors"):
         payload = payload[:len(payload) - 8192 * case["drop_sectors"]]
+    if case.get("drop_bytes"):
+        # the image file ends a little before the end of its last allocated cluster (the audio does not reach that far)
+        payload = payload[:len(payload) - case["drop_bytes"]]
     if case.get("drop_2048"):
         # the image ends early INSIDE the audio of its last sample (cut at a multiple of 2048: every container carries the
         # same logical bytes; behind the MDX payload lies the wrapper's descriptor, which is not part of the image)
@@ -150,7 +153,7 @@ class Check(CheckBase):
     rule = ("case library = AKAI length/header/structure sweeps of C01 (quick: every 4th + all boundary lengths) and Roland "
             "chains/window/header sweeps of C02 (quick: every 12th; odd cluster counts make cluster reads straddle 2048-byte "
             "user-data boundaries) x trailing bytes {0,1,2047,2048} (zero and non-zero), one small image with every trailing sector count 0..127 "
-            "(thorough 0..511), truncated payloads (whole sectors dropped; the image ending inside the audio of its last sample), x the encodings {raw, MODE1/2352, "
+            "(thorough 0..511), truncated payloads (whole sectors dropped; the image ending inside the audio of its last sample; Roland images ending 1..2048 bytes before the end of their last cluster), x the encodings {raw, MODE1/2352, "
             "MDX, cue->raw, cue->2352, cue in another directory naming its bin with a path, cue->raw written with lower/mixed case "
             "keywords, header and unknown lines, tabs, blank lines and CR LF} as real files: same image class, character-identical ls text at every node reachable "
             "through the printed names, identical exported trees (paths + bytes); cue dispatch: all combinations of "
@@ -190,6 +193,15 @@ class Check(CheckBase):
         rcases = []
         for i, c in enumerate(ro):
             rcases.append({"fmt": "roland", "model": c["model"], "trailing": [0, 1, 2047, 2048][i % 4], "trail_kind": "zero"})
+        # Roland images that end 1..2048 bytes before the end of their last allocated cluster (odd- and even-numbered), the
+        # audio of the last sample ending well before that: no container may make a difference
+        for last in (2, 3, 4, 5):
+            smp = {0: {"name": "HEAD", "chain": [last - 1] if last > 2 else [], "points": [0, 0, 200, 0, 9], "mode": 0, "seq": 1},
+                   1: {"name": "TAIL", "chain": [last], "points": [0, 0, 3000, 0, 9], "mode": 0, "seq": 2}}
+            if last == 2:
+                del smp[0]
+            for d in (1, 511, 512, 513, 1023, 1024, 1025, 2047, 2048):
+                rcases.append({"fmt": "roland", "model": c02.simple_model(smp), "trailing": 0, "trail_kind": "zero", "drop_bytes": d})
         det = []
         modes = ["AUDIO", "MODE1/2352", "MODE2/2352", "audio", "mode1/2048"]
         for k in (1, 2, 3):
